@@ -49,13 +49,19 @@ CbList(ops) == Apply(ops, 1, <<>>)
 
 ---------------------------------------------------------------------------
 (* Unfold: the expected Context for a manager node *)
-RECURSIVE Unfold(_, _), UnfoldBody(_), UnfoldCbs(_, _)
+RECURSIVE Unfold(_, _), UnfoldBody(_), UnfoldCbs(_, _), Unentered(_)
+\* push(mgr) / push_async_exit(mgr) register the manager's exit WITHOUT entering it: a generator-based manager's
+\* generator has not started, so its inner stack is its one unstarted frame, holding no contexts yet
+Unentered(n) == IF n.k = "gcm"
+                THEN [Unfold(n, FALSE) EXCEPT !.frames = << [fn |-> "outer", ctxs |-> <<>>] >>]
+                ELSE Unfold(n, FALSE)
 \* contexts of the generator frame of a gcm: its body managers, all active, none exiting
 UnfoldBody(body) == [i \in 1..Len(body) |-> Unfold(body[i], FALSE)]
 UnfoldCbs(cbs, stackAsync) ==
   [i \in 1..Len(cbs) |->
      LET c == cbs[i]
-         base == IF ObjKind(c.op) = "manager" THEN Unfold(c.node, FALSE)
+         base == IF ObjKind(c.op) = "manager"
+                 THEN (IF c.op \in {"push_mgr", "push_async_exit_mgr"} THEN Unentered(c.node) ELSE Unfold(c.node, FALSE))
                  ELSE [id |-> 0, k |-> ObjKind(c.op), async |-> c.op \in AsyncOps, exiting |-> FALSE,
                        frames |-> <<>>, hasinner |-> FALSE, children |-> <<>>, method |-> "", idx |-> 0]
      IN [base EXCEPT !.async = c.op \in AsyncOps, !.method = Method(c.op), !.idx = i - 1]]
